@@ -40,6 +40,28 @@ type Tag struct{ KV [][2]string }
 type Comment struct {
 	Text string
 	F    bool // built with Commentf("%s", Text) instead of Comment(Text): the same comment value
+	// Fmt, when set, drives the real Commentf entry points with THIS format and THESE operands
+	// (Text must be fmt.Sprintf(Fmt.Format, Fmt.Args...): use the constructor Commentf; the
+	// model and the FormBuilder only ever see Text).
+	Fmt *CommentFmt
+}
+
+// CommentFmt is one Commentf call: format, operands and the entry point it goes through.
+type CommentFmt struct {
+	Format string
+	Args   []interface{}
+	// Via: "" = (*Statement).Commentf on the statement being built; "func" = the package
+	// function jen.Commentf; "group" = (*Group).Commentf of a real group (handed out by
+	// BlockFunc).  "func" and "group" create the statement, so they apply when the comment
+	// is the FIRST item of its statement; elsewhere the method form is used.
+	Via string
+}
+
+// Commentf describes the comment built by Commentf(format, args...) through the entry point
+// via; its text is computed here with fmt.Sprintf (operands must print deterministically:
+// no pointers).
+func Commentf(via, format string, args ...interface{}) Comment {
+	return Comment{Text: fmt.Sprintf(format, args...), F: true, Fmt: &CommentFmt{Format: format, Args: args, Via: via}}
 }
 
 func (Nil) isNode()      {}
@@ -280,11 +302,36 @@ func (bd *Builder) Stmt(st *Stmt) *jen.Statement {
 		return s
 	}
 	s := &jen.Statement{}
+	items := st.Items
+	if len(items) > 0 {
+		// a Commentf comment as first item may go through the entry points that create the statement
+		if cm, ok := items[0].(Comment); ok && cm.Fmt != nil && cm.Fmt.Via != "" {
+			s = commentfVia(cm.Fmt)
+			items = items[1:]
+		}
+	}
 	bd.stmts[st] = s
-	for _, it := range st.Items {
+	for _, it := range items {
 		bd.Append(s, it)
 	}
 	return s
+}
+
+// commentfVia creates a statement through jen.Commentf or (*jen.Group).Commentf.
+func commentfVia(f *CommentFmt) *jen.Statement {
+	switch f.Via {
+	case "func":
+		return jen.Commentf(f.Format, f.Args...)
+	case "group":
+		// a real group, handed out by BlockFunc; the statement it returns is the one appended to it
+		var s *jen.Statement
+		jen.BlockFunc(func(g *jen.Group) { s = g.Commentf(f.Format, f.Args...) })
+		if s == nil {
+			panic("term: Group.Commentf returned nil")
+		}
+		return s
+	}
+	panic("term: bad Commentf entry point " + f.Via)
 }
 
 // Append appends one item to s through the public API.
@@ -353,6 +400,10 @@ func (bd *Builder) Append(s *jen.Statement, it Node) {
 		}
 		s.Tag(mp)
 	case Comment:
+		if x.Fmt != nil {
+			s.Commentf(x.Fmt.Format, x.Fmt.Args...)
+			break
+		}
 		if x.F {
 			s.Commentf("%s", x.Text)
 			break
